@@ -183,7 +183,18 @@ Section Eval.
         end
     end.
 
-  (* Flow.names under the resolving set R; None = out of fuel (or a dangling index) *)
+  (* Flow._closes: the loop whose back edge starts at this flow (LoopFlow.__init__, scope.py) *)
+  Fixpoint index_of (t : nat) (l : list nat) (i : nat) : option nat :=
+    match l with
+    | [] => None
+    | x :: r => if Nat.eqb x t then Some i else index_of t r (S i)
+    end.
+
+  Definition closes_of (f : nat) : option nat := index_of f (loops g) 0.
+
+  (* Flow.names under the resolving set R; None = out of fuel (or a dangling index).
+     A flow that closes a loop which is not being resolved answers with that loop's names
+     (scope.py Flow.names, commit 0211a17): the resolution of the loop evaluates this same flow. *)
   Fixpoint names_pure (fuel : nat) (R : list nat) (f : nat) : option env :=
     match fuel with
     | 0 => None
@@ -191,9 +202,16 @@ Section Eval.
         match nth_error (flows g) f with
         | None => None
         | Some fl =>
-            match pnames_with (names_pure k) R fl with
-            | Some pe => Some (own_env (own fl) pe)
-            | None => None
+            match (match closes_of f with
+                   | Some l => if existsb (Nat.eqb l) R then None else Some l
+                   | None => None
+                   end) with
+            | Some l => names_pure k (l :: R) f
+            | None =>
+                match pnames_with (names_pure k) R fl with
+                | Some pe => Some (own_env (own fl) pe)
+                | None => None
+                end
             end
         end
     end.
@@ -236,7 +254,7 @@ Definition query_pure (g : graph) (km : keymap) (fuel : nat) (q : query) : optio
 Definition kmap_of_list (l : list (bid * (pos * pos))) : keymap :=
   fold_left (fun m p => PM.add (fst p) (snd p) m) l (PM.empty _).
 
-Definition default_fuel (g : graph) : nat := S (length (flows g)) * S (length (loops g)).
+Definition default_fuel (g : graph) : nat := 2 * S (length (flows g)) * S (length (loops g)).
 
 Fixpoint list_eqb {A} (eq : A -> A -> bool) (a b : list A) : bool :=
   match a, b with
